@@ -7,7 +7,7 @@
    hmacauth StringToSign), and the verification verdicts computed in Go with the real primitives:
    RSA-PKCS1v15/SHA-256 under the key published at /oauth2/v1/certs for the received kid, and
    hmacauth.AuthenticateRequest.  No proofs here. *)
-From Coq Require Export Init.Byte.
+From Coq Require Export Uint63.
 From V Require Export Base CorrBase Signer Gen_Signer.
 
 Record obs_req := {
@@ -27,8 +27,22 @@ Inductive case :=
 (* the code's lists, re-extracted from the source on every run *)
 Definition gen_cov : list str := signedHeaders.
 Definition gen_covh : list str := hmac_names SignatureHeaders.
-(* long strings are emitted as [bcat [chunk; chunk; ...]] of Init.Byte constructors x00 .. xff *)
-Definition bcat (l : list (list Byte.byte)) : str := map Byte.to_N (concat l).
+(* Strings are emitted packed, seven bytes per primitive 63-bit integer, little-endian (coqc parses a
+   primitive integer literal an order of magnitude faster than seven numerals of type N):
+   [pk rem [i1; ...; ik]] = 7 bytes of each of i1 .. i(k-1), then [rem] bytes of ik;
+   [pkc rem [chunk; ...]] = the same for a long string written as a list of short chunks. *)
+Fixpoint unpack7 (k : nat) (i : int) : str :=
+  match k with
+  | O => []
+  | S k' => Z.to_N (Uint63.to_Z (Uint63.land i 255%uint63)) :: unpack7 k' (Uint63.lsr i 8%uint63)
+  end.
+Fixpoint pk (rem : nat) (l : list int) : str :=
+  match l with
+  | [] => []
+  | [i] => unpack7 rem i
+  | i :: t => unpack7 7 i ++ pk rem t
+  end.
+Definition pkc (rem : nat) (l : list (list int)) : str := pk rem (concat l).
 Definition loopback : str := [49;50;55;46;48;46;48;46;49]. (* "127.0.0.1" *)
 
 (* the received request as an upstream handler has it: Body non-nil, no fragment *)
